@@ -16,6 +16,8 @@ use std::time::{Duration, Instant};
 pub enum SockBehaviour {
     /// write this payload in one write and close
     Payload(Vec<u8>),
+    /// wait this many milliseconds, then write the payload and close
+    DelayedPayload(Vec<u8>, u64),
     /// accept and close without writing
     EmptyClose,
     /// the socket file is absent for this request (connection refused / not found)
@@ -76,6 +78,10 @@ impl ObsServer {
                         let b = s2.lock().unwrap().pop_front();
                         match b {
                             Some(SockBehaviour::Payload(p)) => {
+                                let _ = stream.write_all(&p);
+                            }
+                            Some(SockBehaviour::DelayedPayload(p, ms)) => {
+                                std::thread::sleep(Duration::from_millis(ms));
                                 let _ = stream.write_all(&p);
                             }
                             Some(SockBehaviour::EmptyClose) => {}
@@ -275,4 +281,28 @@ pub fn set_linger_zero(s: &TcpStream) {
     unsafe {
         libc::setsockopt(s.as_raw_fd(), libc::SOL_SOCKET, libc::SO_LINGER, &l as *const _ as *const libc::c_void, std::mem::size_of::<libc::linger>() as libc::socklen_t);
     }
+}
+
+/// A client that sends a complete GET and resets the connection while the exporter is still fetching the state
+/// (the observation socket answers only after `obs_delay_ms`), so that the exporter's response write fails.
+pub fn aborted_scrape(exp: &Exporter, payload: Vec<u8>, obs_delay_ms: u64) {
+    exp.obs.script.lock().unwrap().push_back(SockBehaviour::DelayedPayload(payload, obs_delay_ms));
+    let served0 = exp.obs.served.load(Ordering::Relaxed);
+    if let Ok(mut s) = TcpStream::connect_timeout(&exp.addr, Duration::from_secs(2)) {
+        let _ = s.write_all(b"GET /metrics HTTP/1.1\r\nHost: localhost\r\n\r\n");
+        std::thread::sleep(Duration::from_millis(obs_delay_ms / 2));
+        set_linger_zero(&s);
+        drop(s);
+    }
+    // wait until the observation server has finished that exchange (or give up: the script entry is then removed)
+    let t0 = Instant::now();
+    while exp.obs.served.load(Ordering::Relaxed) == served0 && t0.elapsed() < Duration::from_millis(obs_delay_ms + 500) {
+        std::thread::sleep(Duration::from_millis(1));
+    }
+    let mut sc = exp.obs.script.lock().unwrap();
+    if matches!(sc.front(), Some(SockBehaviour::DelayedPayload(..))) {
+        sc.pop_front();
+    }
+    drop(sc);
+    std::thread::sleep(Duration::from_millis(15));
 }
